@@ -2,7 +2,7 @@
 Reference = the same loop with the @tile attribute deleted."""
 import os, re, itertools
 from vlib import common as C, okl as O
-from props.C17 import direction_ok, NEG, wide_excl
+from props.C17 import direction_ok, NEG, WIDE
 
 R = 1 << 12
 SIG = 'const int N, const int a, const int b, const int s, const int t, int *out'
@@ -39,8 +39,8 @@ def make(name, T, init, cmp_, side, bound, step, tile, form, check, tier):
     if not check:
         p.mid_assumes = ['nvis[0] %% (%s) == 0' % tile]
     p.excl_post = {'negative-trip-count': NEG}
-    if T == 'long':
-        p.excl = {'wide-iterator-negative': wide_excl(init, bound)}
+    if T == 'long' and form != 'plain':
+        p.excl_post['wide-iterator-negative'] = WIDE
     p.form = form
     return p
 
